@@ -27,6 +27,13 @@ def make_group(rng):
         g = {'branch': branch, 'contents': [GO.content(rng, 'failing_noop')]}
         return g, 'failing_noop', OB.encode_group(g)
     level = rng.choice([0, 1, 2 ** 31 - 1, rng.getrandbits(24)])
+    if rng.random() < 0.4:
+        # the other consensus kind pytezos forges: an inlined endorsement wrapped with its slot
+        ibranch, isig, slot = G.rbytes(rng, 32), G.rbytes(rng, 64), rng.choice([0, 1, 255, 256, 65535])
+        inner = {'branch': B.encode(ibranch, 'B'), 'operations': {'kind': 'endorsement', 'level': level}, 'signature': B.encode(isig, 'sig')}
+        g = {'branch': branch, 'contents': [{'kind': 'endorsement_with_slot', 'endorsement': inner, 'slot': slot}]}
+        body = ibranch + b'\x00' + level.to_bytes(4, 'big') + isig
+        return g, 'consensus', B.decode(branch, 'B') + b'\x0a' + len(body).to_bytes(4, 'big') + body + slot.to_bytes(2, 'big')
     g = {'branch': branch, 'contents': [{'kind': 'endorsement', 'level': level}]}
     return g, 'consensus', B.decode(branch, 'B') + b'\x00' + level.to_bytes(4, 'big')
 
